@@ -55,6 +55,7 @@ class Effects:
         self.repo = repo
         self.funcs: dict[str, Func] = {}
         self.modglobals = {}
+        self.flat_globals = set()
         self.imports = {}
         self.trees = {}
         for m in mods:
@@ -65,6 +66,8 @@ class Effects:
             g = {}
             for name, v in mod.assigns.items():
                 g[name] = "mutable" if isinstance(v, (ast.Dict, ast.List, ast.Set, ast.Call, ast.ListComp, ast.DictComp, ast.SetComp)) else "immutable"
+                if isinstance(v, (ast.List, ast.Set)) and all(isinstance(x, ast.Constant) for x in v.elts):
+                    self.flat_globals.add((m, name))  # elements are immutable constants: iterating shares nothing
             self.modglobals[m] = g
             imp = {}
             for local, (src, orig) in mod.imports.items():
@@ -168,7 +171,12 @@ class Effects:
             if isinstance(e, (ast.ListComp, ast.SetComp, ast.GeneratorExp, ast.DictComp)):
                 c = set()
                 for g_ in e.generators:
-                    c |= deep(g_.iter)
+                    it_ = g_.iter
+                    if isinstance(it_, ast.Name) and it_.id not in bound:
+                        tgt = (fn.mod, it_.id) if it_.id in me.modglobals[fn.mod] else (me.imports[fn.mod].get(it_.id) or (None, None))
+                        if tuple(tgt) in me.flat_globals:
+                            continue
+                    c |= deep(it_)
                 return {F}, c - {F}
             if isinstance(e, ast.IfExp):
                 p1, c1 = pc(e.body)
